@@ -173,7 +173,8 @@ fn download(peer: &Peer, first: &(Vec<u8>, SocketAddr), listener: SocketAddr, si
     loop {
         let dg = match pending.take() {
             Some(d) => Some(d),
-            None => peer.recv(if done { 30 } else { 1500 }).map(|x| x.0),
+            // after the final block the remaining copies (duplicate mode) follow within milliseconds; leave room for a loaded machine
+            None => peer.recv(if done { 150 } else { 1500 }).map(|x| x.0),
         };
         let dg = match dg {
             Some(d) => d,
@@ -369,6 +370,10 @@ pub fn run_srv(toks: &[&str], dir: &Path) -> String {
         }
     }
     settle(15);
+    for p in peers.into_iter().flatten() {
+        retire_socket(p.sock);
+    }
+    retire_socket(probe.sock);
     out.push(format!("tree={}", snapshot(&root)));
     let _ = std::fs::remove_dir_all(&root);
     out.join(" ")
@@ -586,6 +591,14 @@ pub fn gen_srv(rng: &mut Rng, count: u64, tier: &str) -> Vec<String> {
         if i % stride == (count as usize) % stride {
             out.push(g);
         }
+    }
+    // one endpoint, several transfers one after the other (the routing entry of a finished transfer must not linger)
+    for flags in ["s", "so", "-", "sd"] {
+        let d1 = hex(&req(1, b"a.txt", &[]));
+        let d2 = hex(&req(1, b"probe.txt", &[("blksize".to_string(), "64".to_string())]));
+        let u1 = hex(&req(2, b"again.bin", &[("windowsize".to_string(), "2".to_string())]));
+        out.push(format!("srv {flags} 0 {tree} q0:{d1}:D;q0:{d2}:D;q0:{u1}:UP1300_9;g0:00040001;{probe}"));
+        out.push(format!("srv {flags} 0 {tree} q0:{u1}:UP700_2;q0:{d1}:D;q1:{d2}:D;q0:{d2}:D;{probe}"));
     }
     // retransmitted / duplicate write requests for one name (overlapping uploads): timeout 1 s, the first worker is
     // abandoned and gives up after six seconds
